@@ -442,7 +442,16 @@ def gen_cases(rng, tier, thr, big, per, fields, have):
         sig = SIG[op]
         for i in range(per):
             fk, p = fields[i % len(fields)] if i < len(fields) else rng.choice(fields)
-            v, o, _, a = gen_case(rng, variant, op, sig, p, thr, big and p < 2 ** 40)
+            if p >= 2 ** 40:
+                # multi-word coefficients: the extracted model does its modular reductions bit by bit on the inductive Z;
+                # keep the operands small, except for a few products across the real switch point
+                if thr > 2 and op in ("mul", "stdmul", "karamul", "mulin", "sqr") and i % 3 == 0:
+                    a = [rand_poly(rng, p, rng.choice([thr, thr + 1, thr + 2, thr + 3])) for ch in sig]
+                    v, o = variant, op
+                else:
+                    v, o, _, a = gen_case(rng, variant, op, sig, p, 2, False)
+            else:
+                v, o, _, a = gen_case(rng, variant, op, sig, p, thr, big)
             cases.append((v, o, fk, p, a))
     return cases
 
@@ -583,6 +592,14 @@ def gen_case(rng, variant, op, sig, p, thr, big):
                 A, B = [1], [1, 1]
         if op == "powmod":
             e = rng.choice([0, 1, 2, 3, 5, 8, 13, 255, 256, 1000003, p, p * p, 2 ** 70 + 1])
+            if p >= 2 ** 40:
+                e = rng.choice([0, 1, 2, 3, 5, 8, 13, 255, 256, 2 ** 70 + 1])
+                A, B = A[:12], B[:8]
+                if A:
+                    A[-1] = 1
+                B[-1] = 1 if len(B) < 8 else B[-1] or 1
+                if len(B) < 2:
+                    B = [1, 1]
             return (variant, op, p, [A, e if variant == "powmod" else e % (1 << 63), B])
         return (variant, op, p, [A, B])
     for ch in sig:
@@ -762,6 +779,30 @@ def run_binary(binary, lines, timeout=900):
     return outs, crashed, hdr
 
 
+def run_model_parallel(drv, lines, nproc=6):
+    """the cases are independent: deal them round-robin to nproc model processes"""
+    if len(lines) < 200:
+        nproc = 1
+    chunks = [lines[k::nproc] for k in range(nproc)]
+
+    def one(ch):
+        return vf.run_lines(drv, "".join(ch), timeout=1500)
+    with ThreadPoolExecutor(max_workers=nproc) as ex:
+        res = list(ex.map(one, chunks))
+    out = [None] * len(lines)
+    err = ""
+    rc = 0
+    for k, (r, o, e) in enumerate(res):
+        if r != 0 or len(o) != len(chunks[k]):
+            rc = r or 1
+            err += e
+            continue
+        out[k::nproc] = o
+    if rc != 0:
+        out = [x for x in out if x is not None]
+    return rc, out, err
+
+
 def run_stream(chk, label, bins, tag, drv, cases, kthr, sthr, stats):
     """run implementation (one binary per field) and model on the cases, three-way compare"""
     if not cases:
@@ -800,8 +841,8 @@ def run_stream(chk, label, bins, tag, drv, cases, kthr, sthr, stats):
     mout = None
     midx = [i for i, c in enumerate(cases) if c[1] not in NO_MODEL]
     if drv and midx:
-        lines_m = "".join("%s %d %d %d %s\n" % (cases[i][1], cases[i][3], kthr, sthr, tok_args(cases[i][1], cases[i][4])) for i in midx)
-        rc, mo, merr = vf.run_lines(drv, lines_m, timeout=1500)
+        lines_m = ["%s %d %d %d %s\n" % (cases[i][1], cases[i][3], kthr, sthr, tok_args(cases[i][1], cases[i][4])) for i in midx]
+        rc, mo, merr = run_model_parallel(drv, lines_m)
         if rc != 0 or len(mo) != len(midx):
             chk.broke("%s: model driver failed (rc=%s, %d/%d lines)" % (label, rc, len(mo), len(midx)), merr)
         else:
